@@ -2,10 +2,12 @@ package g_index
 
 import (
 	"bytes"
+	"encoding/binary"
 	"encoding/json"
 	"fmt"
 	"os"
 	"path/filepath"
+	"runtime/debug"
 	"sort"
 	"strings"
 	"sync"
@@ -193,24 +195,53 @@ func c13Materialize(dir string, s c13Snap) error {
 	return nil
 }
 
-// changed region of a file between two snapshots: [a,b) in the post file
+// changed region of a file between two snapshots: [a,b) in the post file. Trimmed trailing
+// zeros count as zeros, so an old entry that ends in a zero byte is not part of the region.
 func c13Region(pre, post c13File) (a, b int, changed bool) {
+	at := func(f c13File, i int) byte {
+		if i < len(f.Data) {
+			return f.Data[i]
+		}
+		return 0
+	}
 	n := len(pre.Data)
-	if len(post.Data) < n {
+	if len(post.Data) > n {
 		n = len(post.Data)
 	}
 	a = 0
-	for a < n && pre.Data[a] == post.Data[a] {
+	for a < n && at(pre, a) == at(post, a) {
 		a++
 	}
-	if a == len(pre.Data) && a == len(post.Data) && pre.Size == post.Size {
+	if a == n && pre.Size == post.Size {
 		return 0, 0, false
 	}
-	b = len(post.Data)
-	if len(pre.Data) > b {
-		b = len(pre.Data)
+	return a, n, true
+}
+
+// c13TornAt says where a cut falls inside the appended entries (own parser of the documented
+// entry layout: flag, 8-byte id, for inserts a uvarint-prefixed key).
+func c13TornAt(post []byte, a, b, cut int) string {
+	pos := a
+	for pos < b {
+		if cut == pos {
+			return "entry_boundary"
+		}
+		hdr, size := 9, 9
+		if post[pos] == 0x01 && pos+9 < len(post) {
+			l, n := binary.Uvarint(post[pos+9:])
+			if n > 0 {
+				hdr, size = 9+n, 9+n+int(l)
+			}
+		}
+		if cut < pos+hdr {
+			return "entry_header"
+		}
+		if cut < pos+size {
+			return "entry_key"
+		}
+		pos += size
 	}
-	return a, b, true
+	return "entry_boundary"
 }
 
 // ---- crash image recipes ---------------------------------------------------------------------
@@ -223,6 +254,7 @@ type c13Image struct {
 	Cut     int    `json:"cut"`     // bytes [A,Cut) of the new content survive
 	Variant string `json:"variant"` // cut | zero | a5
 	Others  string `json:"others"`  // other files changed by the same op: "pre" or "post"
+	TornAt  string `json:"torn_at"` // entry_boundary | entry_header | entry_key
 	Extra   string `json:"extra"`   // extra file to add (partial index.compacting)
 	ExtraN  int    `json:"extra_n"`
 }
@@ -316,7 +348,7 @@ func c13ChildImages(payload []byte) ([]byte, error) {
 		return nil, err
 	}
 	defer jf.Close()
-	root, err := os.MkdirTemp("", "c13img")
+	root, err := gixTempDir("c13img")
 	if err != nil {
 		return nil, err
 	}
@@ -328,7 +360,7 @@ func c13ChildImages(payload []byte) ([]byte, error) {
 		if err := c13Materialize(dir, p.build(im)); err != nil {
 			return nil, err
 		}
-		for _, f := range c13CheckImage(dir, &p.Ack) {
+		for _, f := range c13CheckImageRecover(dir, &p.Ack, im.Variant != "a5") {
 			f.Image = im
 			out.Fails = append(out.Fails, f)
 		}
@@ -340,8 +372,30 @@ func c13ChildImages(payload []byte) ([]byte, error) {
 
 func c13Part(sf *tsdb.SeriesFile, k c13Key) int { return sf.SeriesKeyPartitionID(k.bytes()) }
 
+// c13CheckImageRecover turns a Go panic of the real code into a failure record (a fatal runtime
+// error such as SIGBUS still kills the child; the parent attributes it through the journal).
+func c13CheckImageRecover(dir string, ack *c13Ack, second bool) (fails []c13Fail) {
+	defer func() {
+		if e := recover(); e != nil {
+			st := string(debug.Stack())
+			// keep the frames of the real code
+			var keep []string
+			for _, l := range strings.Split(st, "\n") {
+				if strings.Contains(l, "influxdb/v2/") && !strings.HasPrefix(l, "\t") {
+					keep = append(keep, strings.TrimSpace(l))
+				}
+			}
+			if len(keep) > 6 {
+				keep = keep[:6]
+			}
+			fails = append(fails, c13Fail{Class: "reopen_panicked", Detail: fmt.Sprintf("panic: %v | %s", e, strings.Join(keep, " <- "))})
+		}
+	}()
+	return c13CheckImage(dir, ack, second)
+}
+
 // c13CheckImage applies the crash rule to one recovered directory.
-func c13CheckImage(dir string, ack *c13Ack) (fails []c13Fail) {
+func c13CheckImage(dir string, ack *c13Ack, second bool) (fails []c13Fail) {
 	add := func(class, format string, a ...any) {
 		if len(fails) < 6 {
 			fails = append(fails, c13Fail{Class: class, Detail: fmt.Sprintf(format, a...)})
@@ -446,6 +500,9 @@ func c13CheckImage(dir string, ack *c13Ack) (fails []c13Fail) {
 	check("after create")
 	if err := sf.Close(); err != nil {
 		add("close_failed", "%v", err)
+	}
+	if !second {
+		return
 	}
 	// double restart
 	sf = tsdb.NewSeriesFile(dir)
@@ -658,8 +715,8 @@ func (h *c13Hist) checkAll(step string) {
 }
 
 // crashImages enumerates the torn states of the op that turned pre into post and checks them in
-// child processes.
-func (h *c13Hist) crashImages(pre, post c13Snap, ack c13Ack, op c13Op, everyByte bool) {
+// child processes. Returns the number of images checked.
+func (h *c13Hist) crashImages(pre, post c13Snap, ack c13Ack, op c13Op) int {
 	var changed []string
 	for rel, pf := range post {
 		if _, _, ch := c13Region(pre[rel], pf); ch {
@@ -683,23 +740,26 @@ func (h *c13Hist) crashImages(pre, post c13Snap, ack c13Ack, op c13Op, everyByte
 			continue
 		}
 		a, b, _ := c13Region(pre[rel], post[rel])
-		var cuts []int
-		for c := a; c <= b; c++ {
-			if everyByte || b-a <= 96 || c-a < 24 || b-c < 24 || (c-a)%7 == 0 {
-				cuts = append(cuts, c)
-			}
+		// a clean cut is a reachable state only for a file whose length the op changed; series
+		// segments are created at their full size (4 MB), so a torn append leaves zeros behind
+		variants := []string{"zero", "a5"}
+		if pre[rel].Size != post[rel].Size {
+			variants = append(variants, "cut")
 		}
 		others := []string{"pre"}
 		if len(changed) > 1 {
 			others = append(others, "post")
 		}
 		for _, o := range others {
-			for _, c := range cuts {
-				for _, v := range []string{"zero", "cut", "a5"} {
+			for c := a; c <= b; c++ { // EVERY byte of the appended region
+				for _, v := range variants {
 					if c == b && v != "zero" {
 						continue
 					}
-					images = append(images, c13Image{ID: fmt.Sprintf("%s/%s@%d/%s/others=%s", opName, rel, c, v, o), File: rel, A: a, B: b, Cut: c, Variant: v, Others: o})
+					if h.r.Quick() && ((o == "post" && (v != "zero" || (c-a)%3 != 0)) || (v == "a5" && c-a > 14 && (c-a)%4 != 0)) {
+						continue // quick tier thins the "other partitions already complete" family and garbage inside key bodies; zero fill is always every byte
+					}
+					images = append(images, c13Image{ID: fmt.Sprintf("%s/%s@%d/%s/others=%s", opName, rel, c, v, o), File: rel, A: a, B: b, Cut: c, Variant: v, Others: o, TornAt: c13TornAt(post[rel].Data, a, b, c)})
 				}
 			}
 		}
@@ -707,37 +767,101 @@ func (h *c13Hist) crashImages(pre, post c13Snap, ack c13Ack, op c13Op, everyByte
 		h.r.Event("torn_region_bytes", int64(b-a))
 	}
 	if len(images) == 0 {
-		return
+		return 0
 	}
-	h.runImages(pre, post, ack, images, op)
+	h.r.Event("ops_with_crash_enumeration_"+op.Kind, 1)
+	hc := *h // witness context as of this op
+	hc.ops = append([]c13Op(nil), h.ops...)
+	c13Queue(&c13Job{h: &hc, pre: pre, post: post, ack: ack, images: images, op: op})
+	return len(images)
 }
 
-func (h *c13Hist) runImages(pre, post c13Snap, ack c13Ack, images []c13Image, op c13Op) {
-	jdir, err := os.MkdirTemp("", "c13j")
+// Crash-image jobs are queued and run in batches through a pool of child processes (each child
+// is a fresh process of this test binary; nothing of the subject is shared between them), so
+// that the children of different ops run side by side.
+type c13Job struct {
+	h         *c13Hist
+	pre, post c13Snap
+	ack       c13Ack
+	images    []c13Image
+	op        c13Op
+}
+
+var c13Jobs []*c13Job
+
+func c13Queue(j *c13Job) {
+	c13Jobs = append(c13Jobs, j)
+	n := 0
+	for _, q := range c13Jobs {
+		n += len(q.images)
+	}
+	if n >= 1500 {
+		c13Drain(j.h.r)
+	}
+}
+
+func c13Drain(r *vkit.Run) {
+	if len(c13Jobs) == 0 {
+		return
+	}
+	t0 := time.Now()
+	jdir, err := gixTempDir("c13j")
 	if err != nil {
-		h.t.Fatal(err)
+		panic(err)
 	}
 	defer os.RemoveAll(jdir)
+	const chunk = 32
+	sem := make(chan struct{}, 12)
+	var wg sync.WaitGroup
+	ci := 0
+	for _, j := range c13Jobs {
+		for i := 0; i < len(j.images); i += chunk {
+			e := i + chunk
+			if e > len(j.images) {
+				e = len(j.images)
+			}
+			ci++
+			wg.Add(1)
+			sem <- struct{}{}
+			go func(j *c13Job, ch []c13Image, ci int) {
+				defer wg.Done()
+				defer func() { <-sem }()
+				j.h.runChunk(j.pre, j.post, j.ack, ch, j.op, filepath.Join(jdir, fmt.Sprintf("journal%d", ci)))
+			}(j, j.images[i:e], ci)
+		}
+	}
+	wg.Wait()
+	c13Jobs = nil
+	r.Event("ms_in_crash_children", time.Since(t0).Milliseconds())
+}
+
+func (h *c13Hist) runChunk(pre, post c13Snap, ack c13Ack, images []c13Image, op c13Op, journal string) {
 	for len(images) > 0 {
-		journal := filepath.Join(jdir, "journal")
 		os.Remove(journal)
 		pl, _ := json.Marshal(c13Payload{Pre: pre, Post: post, Ack: ack, Images: images, Journal: journal, Op: op.Kind})
 		res, err := vkit.RunChild("c13img", pl, 10*time.Minute)
 		if err != nil {
-			h.t.Fatalf("C13: child: %v", err)
+			h.t.Errorf("C13: child: %v", err)
+			return
 		}
 		var out c13ChildOut
 		json.Unmarshal(res.Out, &out)
 		for _, f := range out.Fails {
 			h.r.Event("image_failures", 1)
-			h.viol(f.Class, map[string]string{"source": "crash_image", "in_flight": op.Kind, "variant": f.Image.Variant, "torn_file": c13FileKind(f.Image)}, "crash image "+f.Image.ID, f.Detail, f.Image, "")
+			feat := map[string]string{"source": "crash_image", "in_flight": op.Kind, "variant": f.Image.Variant, "torn_file": c13FileKind(f.Image), "torn_at": f.Image.TornAt}
+			if f.Class == "reopen_panicked" {
+				feat["panic"] = c13PanicKind(f.Detail)
+				feat["site"] = c13PanicSite(f.Detail)
+			}
+			h.viol(f.Class, feat, "crash image "+f.Image.ID, f.Detail, f.Image, "")
 		}
 		if res.TimedOut {
 			h.r.Inconclusive("crash-image child watchdog")
 			return
 		}
 		if res.HandlerError {
-			h.t.Fatalf("C13: child handler error: %s", res.Log)
+			h.t.Errorf("C13: child handler error: %s", res.Log)
+			return
 		}
 		if !res.Crashed() {
 			h.r.Event("crash_images", int64(len(images)))
@@ -760,7 +884,7 @@ func (h *c13Hist) runImages(pre, post c13Snap, ack c13Ack, images []c13Image, op
 			log = log[:6000]
 		}
 		h.r.Event("image_crashes", 1)
-		h.viol("reopen_crashed", map[string]string{"source": "crash_image", "in_flight": op.Kind, "variant": im.Variant, "torn_file": c13FileKind(im), "panic": c13PanicKind(first)},
+		h.viol("reopen_crashed", map[string]string{"source": "crash_image", "in_flight": op.Kind, "variant": im.Variant, "torn_file": c13FileKind(im), "torn_at": im.TornAt, "panic": c13PanicKind(first)},
 			"crash image "+im.ID, strings.TrimSpace(first), im, log)
 		h.r.Event("crash_images", int64(idx+1))
 		images = images[idx+1:]
@@ -775,6 +899,22 @@ func c13FileKind(im c13Image) string {
 		return "none"
 	}
 	return "segment"
+}
+
+// c13PanicSite names the innermost function of the real code on the panicking stack.
+func c13PanicSite(detail string) string {
+	i := strings.Index(detail, "| ")
+	if i < 0 {
+		return "?"
+	}
+	f := strings.SplitN(detail[i+2:], " <- ", 2)[0]
+	if j := strings.LastIndex(f, "/"); j >= 0 {
+		f = f[j+1:]
+	}
+	if j := strings.Index(f, "("); j > 0 && !strings.HasPrefix(f[j:], "(*") {
+		f = f[:j]
+	}
+	return strings.TrimSuffix(strings.SplitN(f, "({", 2)[0], "(...)")
 }
 
 func c13PanicKind(s string) string {
@@ -793,9 +933,12 @@ func c13PanicKind(s string) string {
 	return "other"
 }
 
-func c13RunHistory(t *testing.T, r *vkit.Run, rep *gixReporter, no int, domain []c13Key) {
+// c13RunHistory runs one history. crashKind != "" makes it a crash history: one op of that kind
+// (built to be interesting: partition 6/7 keys, ids beyond one byte) gets its torn states
+// enumerated; if that op turns out not to touch the disk the next writing op is taken instead.
+func c13RunHistory(t *testing.T, r *vkit.Run, rep *gixReporter, no int, domain []c13Key, crashKind string) {
 	rg := r.Rand(no)
-	dir, err := os.MkdirTemp("", "c13")
+	dir, err := gixTempDir("c13")
 	if err != nil {
 		t.Fatal(err)
 	}
@@ -806,13 +949,20 @@ func c13RunHistory(t *testing.T, r *vkit.Run, rep *gixReporter, no int, domain [
 		t.Fatal(err)
 	}
 	defer func() { h.sf.Close() }()
+	byName := map[string]c13Key{}
+	for _, k := range domain {
+		byName[k.String()] = k
+	}
 
 	// some histories start on a populated file so that ids leave the one-byte range
-	switch no % 4 {
+	switch rg.Intn(4) {
 	case 1:
 		h.fill = 280 + rg.Intn(60)
 	case 3:
 		h.fill = 520 + rg.Intn(200)
+	}
+	if crashKind != "" && no%3 != 2 && h.fill == 0 {
+		h.fill = 280 + rg.Intn(400)
 	}
 	if h.fill > 0 {
 		var ks []c13Key
@@ -825,9 +975,12 @@ func c13RunHistory(t *testing.T, r *vkit.Run, rep *gixReporter, no int, domain [
 		}
 	}
 	nOps := rg.Range(8, 20)
-	// which ops get their torn states enumerated
-	crashBudget := r.N(2, 6)
-	everyByte := true
+	crashAt := -1
+	if crashKind != "" {
+		crashAt = rg.Range(3, nOps-2)
+	}
+	crashPending := false
+	hiPart := func(k c13Key) bool { return c13Part(h.sf, k) >= 6 }
 	for i := 0; i < nOps; i++ {
 		var op c13Op
 		switch x := rg.Intn(20); {
@@ -853,8 +1006,50 @@ func c13RunHistory(t *testing.T, r *vkit.Run, rep *gixReporter, no int, domain [
 				}
 			}
 		}
+		if i == crashAt {
+			crashPending = true
+			// shape the op that will be torn
+			switch crashKind {
+			case "create":
+				op = c13Op{Kind: "create"}
+				for _, k := range domain { // a not-live key, from the high partitions if there is one
+					if _, live := h.m.Live[k.String()]; !live && (hiPart(k) || rg.Chance(1, 3)) {
+						op.Keys = append(op.Keys, k.String())
+						if len(op.Keys) >= rg.Range(1, 3) {
+							break
+						}
+					}
+				}
+				op.Keys = append(op.Keys, vkit.Pick(rg, domain).String())
+			case "delete", "flush":
+				op = c13Op{Kind: "delete", Flush: crashKind == "delete"}
+				var live []c13Key
+				for _, k := range domain {
+					if _, ok := h.m.Live[k.String()]; ok && (hiPart(k) || rg.Chance(1, 3)) {
+						live = append(live, k)
+					}
+				}
+				if len(live) == 0 { // nothing to delete yet: create first, delete on the next op
+					op = c13Op{Kind: "create"}
+					for _, k := range domain {
+						if hiPart(k) {
+							op.Keys = append(op.Keys, k.String())
+						}
+					}
+					crashAt++
+					crashPending = false
+				} else {
+					op.Keys = []string{vkit.Pick(rg, live).String()}
+				}
+			case "compact":
+				op = c13Op{Kind: "compact", Parts: []int{rg.Intn(8), 7}}
+			}
+		} else if crashKind == "flush" && crashPending && len(h.m.Pending) > 0 {
+			op = c13Op{Kind: "flush"}
+		}
 		// snapshot + acknowledged view before the op
-		wantCrash := crashBudget > 0 && (op.Kind == "create" || op.Kind == "delete" || op.Kind == "flush" || op.Kind == "compact") && rg.Chance(1, 2)
+		writes := op.Kind == "create" || op.Kind == "compact" || op.Kind == "flush" || (op.Kind == "delete" && op.Flush)
+		wantCrash := crashPending && writes && !(crashKind == "flush" && op.Kind != "flush" && len(h.m.Pending) > 0)
 		var pre c13Snap
 		var ack c13Ack
 		if wantCrash {
@@ -876,10 +1071,6 @@ func c13RunHistory(t *testing.T, r *vkit.Run, rep *gixReporter, no int, domain [
 		}
 		h.ops = append(h.ops, op)
 		step := fmt.Sprintf("%s #%d", op.Kind, i)
-		byName := map[string]c13Key{}
-		for _, k := range domain {
-			byName[k.String()] = k
-		}
 		switch op.Kind {
 		case "create":
 			var ks []c13Key
@@ -902,10 +1093,9 @@ func c13RunHistory(t *testing.T, r *vkit.Run, rep *gixReporter, no int, domain [
 			if err != nil {
 				t.Fatal(err)
 			}
-			before := r.EventCount("crash_images")
-			h.crashImages(pre, post, ack, op, everyByte)
-			if r.EventCount("crash_images") > before {
-				crashBudget--
+			if h.crashImages(pre, post, ack, op) > 0 {
+				crashPending = false
+				r.Event("crash_histories", 1)
 			}
 		}
 	}
@@ -918,8 +1108,8 @@ func c13RunHistory(t *testing.T, r *vkit.Run, rep *gixReporter, no int, domain [
 		kinds[o.Kind] = true
 	}
 	r.Case(key, len(h.m.Past) > 0 && kinds["create"] && (kinds["reopen"] || kinds["compact"]))
-	if r.WantSample() && no%11 == 0 {
-		r.Sample(map[string]any{"history": no, "fillers": h.fill, "ops": h.ops, "live": len(h.m.Live), "ids_used": len(h.m.Used)})
+	if r.WantSample() && (no%11 == 0 || crashKind != "" && no%2 == 0) {
+		r.Sample(map[string]any{"history": no, "fillers": h.fill, "ops": h.ops, "live": len(h.m.Live), "ids_used": len(h.m.Used), "crash_enumeration_on": crashKind})
 	}
 }
 
@@ -927,7 +1117,7 @@ func c13RunHistory(t *testing.T, r *vkit.Run, rep *gixReporter, no int, domain [
 
 func c13Concurrent(t *testing.T, r *vkit.Run, rep *gixReporter, no int, domain []c13Key) {
 	rg := r.SubRand("conc", no)
-	dir, err := os.MkdirTemp("", "c13c")
+	dir, err := gixTempDir("c13c")
 	if err != nil {
 		t.Fatal(err)
 	}
@@ -1118,12 +1308,25 @@ func TestC13(t *testing.T) {
 		ds = append(ds, fmt.Sprintf("p%d:%s", tsdb.NewSeriesFile("").SeriesKeyPartitionID(k.bytes()), k))
 	}
 	r.Extra("domain", ds)
-	n := r.N(150, 5000)
-	for i := 0; i < n; i++ {
-		c13RunHistory(t, r, rep, i, domain)
+	n := gixN(r, 150, 5000)
+	crashOps := r.N(10, 120) // histories whose chosen op is torn at every byte
+	every := n / crashOps
+	if every < 1 {
+		every = 1
 	}
-	nc := r.N(40, 1500)
+	kinds := []string{"create", "delete", "create", "flush", "create", "compact", "delete"}
+	for i := 0; i < n; i++ {
+		ck := ""
+		if i%every == 0 {
+			ck = kinds[(i/every)%len(kinds)]
+		}
+		c13RunHistory(t, r, rep, i, domain, ck)
+	}
+	c13Drain(r)
+	nc := gixN(r, 40, 1500)
+	t0 := time.Now()
 	for i := 0; i < nc; i++ {
 		c13Concurrent(t, r, rep, i, domain)
 	}
+	r.Event("ms_in_concurrent_cases", time.Since(t0).Milliseconds())
 }
